@@ -33,8 +33,8 @@ Proof. intros; unfold Inv; simpl; repeat split; intros; try discriminate; auto. 
 
 (* replace the facts about the source by their values, and reduce *)
 Ltac use_facts_with P H :=
-  destruct P as (Hkw & Hrw & Hpk & Hsk & Hcl & Hsr & Hsc & Hel & Hef & Hms & Hcp);
-  rewrite ?Hkw, ?Hrw, ?Hpk, ?Hsk, ?Hcl, ?Hsr, ?Hsc, ?Hel, ?Hef, ?Hms, ?Hcp in H; cbn [negb] in H;
+  destruct P as (Hkw & Hrw & Hpk & Hsk & Hcl & Hsr & Hsc & Hel & Hef & Hms & Hcp & Hmo & Hmr);
+  rewrite ?Hkw, ?Hrw, ?Hpk, ?Hsk, ?Hcl, ?Hsr, ?Hsc, ?Hel, ?Hef, ?Hms, ?Hcp, ?Hmo in H; cbn [negb] in H;
   rewrite ?orb_false_r, ?orb_true_l, ?andb_true_l, ?andb_true_r in H; cbv iota in H.
 
 Ltac tbl_facts :=
@@ -57,8 +57,8 @@ Local Notation step := (step F).
 
 Lemma facts_all : kill_works F = true /\ run_watches F = true /\ run_postkill F = true /\ stop_kills_before_wait F = true /\
   cancel_lockfree F = true /\ stop_rechecks F = true /\ stop_clears_running F = true /\ exec_holds_lock F = true /\
-  exec_flags F = true /\ mon_stops F = true /\ check_pure F = true.
-Proof. pose proof HF as H0. unfold facts_ok in H0. do 10 (apply andb_true_iff in H0; destruct H0 as [H0 ?]). repeat split; assumption. Qed.
+  exec_flags F = true /\ mon_stops F = true /\ stop_never_gives_up F = true /\ mon_on_sync F = true /\ mon_relaunch_ok F = true.
+Proof. pose proof HF as H0. unfold facts_ok in H0. do 12 (apply andb_true_iff in H0; destruct H0 as [H0 ?]). repeat split; assumption. Qed.
 
 Lemma step_modes : forall s l s', step s l = Some s' -> smode s' = smode s /\ kmode s' = kmode s /\ prog s' = prog s.
 Proof.
